@@ -6,7 +6,7 @@
 (***************************************************************************)
 EXTENDS UbxReader, TLC
 
-CONSTANTS MaxLen, ZeroEof, Quits, Filters
+CONSTANTS MaxLen, ZeroEof, Quits, Filters, Socks
 
 Alphabet == {181, 98, 36, 71, 211, 0, 1, 10}   \* b5 62 '$' 'G' d3 00 01 LF
 NmeaB2 == {71}
@@ -15,7 +15,7 @@ VARIABLES stream, cfg, st
 vars == <<stream, cfg, st>>
 
 Init == /\ stream \in UNION {[1..n -> Alphabet] : n \in 0..MaxLen}
-        /\ cfg \in [filter : Filters, quit : Quits, parsing : BOOLEAN, zeroEof : {ZeroEof}, nmeaB2 : {NmeaB2}]
+        /\ cfg \in [filter : Filters, quit : Quits, parsing : BOOLEAN, zeroEof : {ZeroEof}, nmeaB2 : {NmeaB2}, sock : Socks]
         /\ st = InitState
 
 Next == /\ ~Terminal(st)
@@ -26,7 +26,8 @@ Next == /\ ~Terminal(st)
 Spec == Init /\ [][Next]_vars /\ WF_vars(Next)
 
 \* C07
-InvNothingLeft == NothingLeft(st, stream)
+\* (through a socket wrapper a truncated tail stays in the wrapper's buffer: the claim is about file-like streams)
+InvNothingLeft == ~cfg.sock => NothingLeft(st, stream)
 InvSlices == Slices(st, stream, NmeaB2)
 AppendOnly == [][IsPrefix(st.out, st'.out) /\ IsPrefix(st.errs, st'.errs)]_vars
 \* C08 (reader part): every run ends; an exception leaves read() only under ERR_RAISE
